@@ -25,7 +25,7 @@ RULE = ("3 of 4 runs: EVSE bench - one generated EVSE (continuous incl. min>0 / 
 PROBES = ["near_boundary_with_ev", "near_boundary_no_ev", "rejected", "accepted_edge", "nan_pilot", "advertised_value",
           "plugin_occupied", "world_invalid_pilot", "world_rejected_with_ev", "min_gt_zero_evse", "inf_max_evse", "advertised_inf_max",
           "finite_without_zero", "finite_unsorted_or_dup", "twin_evses_world", "world_resume_json", "world_advertised_value",
-          "plugin_occupied_same_session_id", "world_party_scribbled_on_handed_info", "rates_given_as_one_shot_iterable", "plugin_occupied_via_network", "plugin_occupied_newcomer_after_occupants_departure"]
+          "plugin_occupied_same_session_id", "world_party_scribbled_on_handed_info", "rates_given_as_one_shot_iterable", "plugin_occupied_via_network", "plugin_occupied_newcomer_after_occupants_departure", "pilot_sent_through_network", "bench_network_over_64_stations"]
 FAULT_DIMENSION = ("misbehaving scheduler: out-of-set pilot at an arbitrary call of a run (terminal fault, judged on the rejected station); "
                    "scheduler crash + JSON save/load (advertised limits must still be each station's own)")
 REAL_VS_STUB = "real: EVSE, DeadbandEVSE, FiniteRatesEVSE, EV, Battery models, ChargingNetwork, Interface, Simulator; ours: probing party"
@@ -134,6 +134,7 @@ def gen(rs, tier):
         elif ev is not None:
             ops.append({"op": "unplug"})
     return {"seed": rs, "evse": e, "ev": ev, "ops": ops, "voltage": r.choice([120, 208, 240]), "period": r.choice([1, 5, 15]),
+            "filler_stations": sub(rs, "filler").choice([0] * 11 + [70]),
             "rates_form": r.choice(["list", "list", "iter", "gen", "map", "tuple", "ndarray"])}
 
 
@@ -169,7 +170,15 @@ def check(sc):
                 evse = build_evse("X", e)
             mk_ev = lambda i: sut.EV(0, 100, sc["ev"]["energy"], "X", "sess%d" % i, build_battery(sc["ev"]["battery"]))
             nw_ = sut.ChargingNetwork()          # the same EVSE, reached through a network it is registered in
-            nw_.register_evse(evse, 208, 0)
+            nfill = sc.get("filler_stations", 0)
+            for f_ in range(nfill // 2):
+                nw_.register_evse(sut.EVSE("F%03d" % f_, max_rate=32), 208, 0)
+            nw_.register_evse(evse, sc["voltage"], 0)
+            for f_ in range(nfill // 2, nfill):
+                nw_.register_evse(sut.EVSE("F%03d" % f_, max_rate=32), 208, 0)
+            row_x = nw_.station_ids.index("X")
+            if nfill:
+                out.probe("bench_network_over_64_stations")
             cur_ev = None
             nev = 0
             if e["type"] == "Finite":
@@ -184,6 +193,8 @@ def check(sc):
                 return (float(evse.current_pilot), cur_ev.session_id, float(cur_ev.energy_delivered), cur_ev.current_charging_rate,
                         repr(cur_ev._battery._to_dict({})[0]))
 
+            via_net = [sc["seed"] % 3]
+
             def try_set(v, label, i):
                 nonlocal cur_ev
                 d = dist(e, v)
@@ -194,10 +205,18 @@ def check(sc):
                     return      # an infinite pilot into the two-stage closed form is outside every stated law
                 before = snap()
                 try:
-                    evse.set_pilot(v, sc["voltage"], sc["period"])
+                    if via_net[0] % 3 == 2:
+                        # the pilot reaches the EVSE the way the simulator sends it: one column of a pilot matrix for the whole network
+                        out.probe("pilot_sent_through_network")
+                        col = np.zeros((len(nw_.station_ids), 1))
+                        col[row_x, 0] = v
+                        nw_.update_pilots(col, 0, sc["period"])
+                    else:
+                        evse.set_pilot(v, sc["voltage"], sc["period"])
                     acc = True
                 except sut.InvalidRateError:
                     acc = False
+                via_net[0] += 1
                 log.append((label, repr(v), acc))
                 if abs(d - 1e-3) < 1e-9:
                     out.inconclusive += 1
